@@ -96,6 +96,7 @@ func Plans() map[string]*Plan {
 		p.AutoP = 0.3
 		p.SkipNameCheckP = 0.5
 		p.FwdLogP = 0.15
+		p.LongNamesP = 0.12
 		ps["C03"] = &Plan{Prop: "C03", Level: "exploration",
 			Parts:      []Part{turnPart("C03", "S-TURN/deep-reads", 9000, 900000, p, RunOpts{DeepReads: true})},
 			Rule:       "S-TURN histories (seeded; 1-2 handles, 4-22 ops, all record kinds, range/auto/full compaction, swarm Config); a run is non-trivial when a raw merged view over >=2 tables was compared and at least one seek was checked; distinct = distinct (interleaving hash, list versions, probe vector)",
@@ -146,6 +147,7 @@ func Plans() map[string]*Plan {
 		p := baseProfile()
 		p.W = map[string]int{OpAdd: 8, OpAddMulti: 1, OpCompactRange: 5, OpCompactAll: 2, OpAutoCompact: 2, OpReopen: 1, OpSetAuto: 1}
 		p.FwdLogP = 0.2
+		p.LongNamesP = 0.1
 		p.MinOps, p.MaxOps = 5, 28
 		p.HandlesPerTask = 2
 		p.SmallBlocks = true
@@ -220,6 +222,7 @@ func Plans() map[string]*Plan {
 		p.SmallBlocks = true
 		p.ManyNames = 64
 		p.HugeNames = 260
+		p.LongNamesP = 0.1
 		p.Logs = false
 		p.RefsPerTxn = [2]int{1, 8}
 		p.PopularP = 0.3
